@@ -366,15 +366,20 @@ func (x *Exec) violation(kind, label, site, detail string, extra ...*sym.Term) {
 	})
 }
 
-// assert checks a goal: the solver must show pc ∧ ¬c unsatisfiable.
+// assert checks a goal: the solver must show pc ∧ ¬c unsatisfiable. A goal
+// that can fail is recorded with its model; the path then continues under c
+// (or unconstrained when c fails for every input of the path), so that later
+// goals are still examined.
 func (x *Exec) assert(c *sym.Term, label string) {
 	if c.IsTrue() {
 		x.res.Asserts[label]++
 		return
 	}
 	if c.IsFalse() {
-		x.violation("assert", label, "", "")
-		panic(endPath{"assertion " + label + " fails on the whole path"})
+		if x.pos >= len(x.prefix) {
+			x.violation("assert", label, "", "")
+		}
+		return
 	}
 	if d, ok := x.next(); ok {
 		// recorded outcome of this assertion on the prefix: v = can be violated, h = holds, e = always violated
@@ -386,7 +391,7 @@ func (x *Exec) assert(c *sym.Term, label string) {
 			x.addPC(c)
 			return
 		case "e":
-			panic(endPath{"assertion " + label + " fails on the whole path"})
+			return
 		}
 		panic(fmt.Sprintf("decision mismatch: got %q at assert %s", d, label))
 	}
@@ -398,14 +403,12 @@ func (x *Exec) assert(c *sym.Term, label string) {
 		return
 	case solver.Unknown:
 		x.record("h")
-		x.res.Status = "aborted"
-		x.res.Detail = "solver unknown on goal " + label
 		panic(abortPath{"solver unknown on goal " + label})
 	}
 	x.violation("assert", label, "", "", sym.Not(c))
 	if x.check(c) == solver.Unsat {
 		x.record("e")
-		panic(endPath{"assertion " + label + " fails on the whole path"})
+		return
 	}
 	x.record("v")
 	x.addPC(c)
